@@ -126,3 +126,18 @@ def getattr_static(obj, attr, default=_sentinel):
     if default is not _sentinel:
         return default, False
     raise AttributeError(attr)
+
+
+def lookup_special_method_static(obj, name, default=None):
+    """
+    Python looks up special methods like ``__iter__`` or ``__bool__`` on the
+    type of an object and neither on the object itself nor on the metaclass.
+
+    This does the same, but statically: It returns the entry of the first class
+    ``__dict__`` in the MRO that contains `name` (without executing descriptors)
+    or `default` if there is none.
+    """
+    result = _check_class(type(obj), name)
+    if result is _sentinel:
+        return default
+    return result
